@@ -487,6 +487,10 @@ def _normals(tier, seed):
         w = np.asarray(obs.lib("visualize_angles", geom.visualize_angles, arg, plot_rotations=False), dtype=float)
         obs.check(w.shape == (m, 3) and np.abs(w - want).max() <= UNIT_TOL, "visualize_angles", "zaxis-image",
                   lambda: f"batch of {m}: shape {w.shape}, first row {w.reshape(-1)[:3].tolist()} vs R e_z {want[0].tolist()}", cls=cls)
+        # ... in input order whatever the display options are (per-point colour values, here descending)
+        w3 = np.asarray(obs.lib("visualize_angles", geom.visualize_angles, arg, plot_rotations=False, color_map=np.arange(m, 0, -1.0)), dtype=float)
+        obs.check(w3.shape == (m, 3) and np.abs(w3 - want).max() <= UNIT_TOL, "visualize_angles", "zaxis-image",
+                  lambda: f"batch of {m} with per-point colour values: row order / values differ from R e_z in input order", cls=cls + ",colour-values")
         rot = _srot().from_matrix(GM[idx] if k != 0 else GM[idx][0])
         w2 = np.asarray(obs.lib("visualize_rotations", geom.visualize_rotations, rot, plot_rotations=False), dtype=float)
         obs.check(w2.shape == (m, 3) and np.abs(w2 - want).max() <= UNIT_TOL, "visualize_rotations", "zaxis-image",
